@@ -63,7 +63,22 @@ class Client:
         self.app_writes_seen = False
         self.remote = None
         self.irset = None
+        self.flag_samples = 0
+        self.flag_without_socket: List[dict] = []
         sim.wall_watchers.append(self._wall)
+        sim.iteration_hooks.append(self._sample_flag)
+
+    def _sample_flag(self):
+        """Sampled at every loop iteration: `connected` implies an established socket that the client has not closed
+        itself (the transport closes it on its own once the peer has reset or ended the stream, and the flag then
+        rightly stays up until disconnect; a disconnect in progress may clear the flag a cycle after closing)."""
+        if self.api is None or (self.cur is not None and self.cur.kind in ("disconnect", "aexit")):
+            return
+        self.flag_samples += 1
+        if self.api.connected and len(self.flag_without_socket) < 3 and not any(
+                s.conn is not None and s.conn.established and (not s.closed or s.conn.rx_rst or s.conn.rx_fin)
+                for s in self.socks):
+            self.flag_without_socket.append({"seq": self.sim.seq, "during": self.cur.kind if self.cur else None})
 
     def _wall(self):
         if self.cur is not None:
@@ -231,6 +246,10 @@ class BodyError(Exception):
     """The exception a simulated `async with` body raises."""
 
 
+class BodyBaseError(BaseException):
+    """... or one that is not an Exception (like CancelledError or KeyboardInterrupt)."""
+
+
 async def exec_step(cl: Client, st: Dict[str, Any]):
     sim = cl.sim
     kind = st["kind"]
@@ -277,8 +296,10 @@ async def exec_step(cl: Client, st: Dict[str, Any]):
             res = None
         elif kind == "aexit":
             if st.get("exc"):
-                e = BodyError("body failed")
-                r = await cl.api.__aexit__(BodyError, e, None)
+                ecls = {"cancelled": asyncio.CancelledError, "keyboard": KeyboardInterrupt, "base": BodyBaseError,
+                        }.get(st.get("exc_kind"), BodyError)
+                e = ecls("body failed")
+                r = await cl.api.__aexit__(ecls, e, None)
             else:
                 r = await cl.api.__aexit__(None, None, None)
             op.extra["swallowed"] = bool(r)
